@@ -11,6 +11,7 @@
   that does not invent tokens, the fuel the model gives it is never what ends the loop — it ends
   by itself after at most one iteration per token.
 -/
+import GoFlags.Props.C04.Facts
 import GoFlags.Lemmas.ParseLog
 
 namespace GoFlags.C04
